@@ -193,8 +193,11 @@ def counter_step(a, phi):
 def run(ctx):
     prog = ctx.prog
     roots = [f for f in prog.fns.values() if f.trait_method() == 'into_ordered_vec']
-    if len(roots) < 2:
-        ctx.anchor_missing(RULE, 'implementations of into_ordered_vec (tree and list)', PROPS, len(roots), 2)
+    # the two implementations are anchors of their own (a small, named set is not subject to the consolidation allowance)
+    for what, have in (('tree implementation of into_ordered_vec', any(f.self_adt in prog.tree_adts or f.self_adt not in prog.list_adts for f in roots)),
+                       ('list implementation of into_ordered_vec', any(f.self_adt in prog.list_adts for f in roots))):
+        if not have:
+            ctx.anchor_missing(RULE, what, PROPS, 0, 1)
     n = 0
     for root in roots:
         fns = [f for f in prog.closure(root)]
